@@ -2,6 +2,8 @@
 package h02
 
 import (
+	"time"
+
 	"go.nanomsg.org/mangos/v3"
 	"go.nanomsg.org/mangos/v3/zzverif/verif"
 	"go.nanomsg.org/mangos/v3/zzverif/vp"
@@ -631,5 +633,172 @@ func VH02k_simultaneous_connect() {
 	verif.Quiesce()
 	verif.Assert(g2.Done() && serr == nil && len(nw.Sent) == 1, lab+"/new-peer-got-no-traffic")
 	verif.Reach("simultaneous-checked")
+	sock.Close()
+}
+
+// VH02l_deadline_race: a deadline runs out at the very moment the call could
+// complete. Receiving side (pair, xpair, pair1, pull, xpull): a Recv with a
+// receive deadline is waiting; a message arrives and the deadline timer fires
+// at the same moment. Sending side (pair, xpair, push, xpush): the peer does
+// not take messages, the queue is full and a Send with a send deadline is
+// waiting; the peer starts taking messages and the deadline timer fires at the
+// same moment. Under every schedule in which one goroutine stalls at one
+// synchronisation point until the others are at rest, exactly one of the two
+// outcomes happens, completely: Recv returns the message, or it times out and
+// the message is still there for the next Recv; Send reports success and the
+// message reaches the peer exactly once, or it times out and the message never
+// does. Nothing is lost, duplicated or delivered behind the application's back.
+func VH02l_deadline_race() {
+	if verif.Choice("side", 2) == 0 {
+		protos := []string{"pair", "xpair", "pair1", "pull", "xpull"}
+		proto := protos[verif.Choice("proto", len(protos))]
+		lab := "C02/" + proto + "/recv-deadline-race"
+		sock := vp.New(proto)
+		verif.Assert(sock.SetOption(mangos.OptionRecvDeadline, time.Second) == nil, lab+"/set-deadline")
+		side := vt.Listen(sock, "a")
+		peer := side.Peer("p")
+		var m *mangos.Message
+		var rerr error
+		g := verif.Go("recv", func() { m, rerr = sock.RecvMsg() })
+		verif.Quiesce()
+		verif.Assert(!g.Done(), lab+"/recv-returned-without-message-or-deadline")
+		wire := []byte{}
+		if hdrLen(proto) == 4 {
+			wire = append(wire, 0, 0, 0, 0)
+		}
+		wire = append(wire, 'm', verif.Byte("in"))
+		switch verif.Choice("first", 3) {
+		case 0:
+			peer.Deliver(wire)
+			verif.Assert(verif.FireTimerNow(), lab+"/no-deadline-timer")
+		case 2:
+			// the message is in the socket (or on its way there, if a goroutine stalls) when the timer fires
+			peer.Deliver(wire)
+			verif.QuiesceKeep()
+			verif.Assert(verif.FireTimerNow(), lab+"/no-deadline-timer")
+		default:
+			verif.Assert(verif.FireTimerNow(), lab+"/no-deadline-timer")
+			peer.Deliver(wire)
+		}
+		verif.Quiesce()
+		verif.Assert(g.Done(), lab+"/recv-hangs-beyond-its-deadline")
+		if !g.Done() {
+			return
+		}
+		got := 0
+		if rerr == nil {
+			verif.Assert(verif.BytesEq(m.Body, wire[hdrLen(proto):]), lab+"/inbound-changed")
+			got++
+			verif.Reach("recv-won")
+		} else {
+			verif.Assert(rerr == mangos.ErrRecvTimeout, lab+"/unexpected-recv-error")
+			verif.Reach("deadline-won")
+		}
+		// what is there now? (at most the one message, exactly once in total)
+		verif.Assert(sock.SetOption(mangos.OptionRecvDeadline, time.Duration(0)) == nil, lab+"/clear-deadline")
+		var m2 *mangos.Message
+		var e2 error
+		g2 := verif.Go("recv2", func() { m2, e2 = sock.RecvMsg() })
+		verif.Quiesce()
+		if g2.Done() {
+			verif.Assert(e2 == nil && verif.BytesEq(m2.Body, wire[hdrLen(proto):]), lab+"/second-recv")
+			got++
+			g3 := verif.Go("recv3", func() { sock.RecvMsg() })
+			verif.Quiesce()
+			verif.Assert(!g3.Done(), lab+"/message-delivered-more-than-once")
+		}
+		verif.Assert(got == 1, lab+"/message-lost-or-duplicated-when-the-deadline-ran-out-as-it-arrived")
+		verif.Assert(!peer.Closed, lab+"/peer-disconnected")
+		sock.Close()
+		return
+	}
+	protos := []string{"pair", "xpair", "push", "xpush"}
+	proto := protos[verif.Choice("proto", len(protos))]
+	lab := "C02/" + proto + "/send-deadline-race"
+	sock := vp.New(proto)
+	verif.Assert(sock.SetOption(mangos.OptionWriteQLen, 1) == nil, lab+"/set-wqlen")
+	verif.Assert(sock.SetOption(mangos.OptionSendDeadline, time.Second) == nil, lab+"/set-deadline")
+	side := vt.Listen(sock, "a")
+	peer := side.Peer("p")
+	peer.SendMode = vt.SendBlock
+	// fill the write in progress and the queue
+	type sr struct {
+		g   *verif.G
+		err error
+		b   []byte
+	}
+	var sends []*sr
+	for i := 0; i < 4; i++ {
+		s := &sr{b: []byte{byte('a' + i), verif.Byte("out")}}
+		sends = append(sends, s)
+		s.g = verif.Go("send", func() { s.err = sendOne(sock, proto, s.b) })
+		verif.Quiesce()
+		if !s.g.Done() {
+			break
+		}
+		verif.Assert(s.err == nil, lab+"/send-ok")
+	}
+	w := sends[len(sends)-1]
+	verif.Assert(!w.g.Done(), lab+"/four-sends-accepted-with-queue-length-1-and-a-stalled-peer")
+	if w.g.Done() {
+		return
+	}
+	// the peer starts taking messages and the waiting Send's deadline fires, at the same moment
+	rel := func() {
+		peer.SendMode = vt.SendOK
+		for k := 0; k < 6; k++ {
+			peer.Release()
+		}
+	}
+	switch verif.Choice("first", 3) {
+	case 0:
+		rel()
+		verif.Assert(verif.FireTimerNow(), lab+"/no-deadline-timer")
+	case 2:
+		rel()
+		verif.QuiesceKeep()
+		if !verif.FireTimerNow() {
+			verif.Reach("send-timer-gone")
+		}
+	default:
+		verif.Assert(verif.FireTimerNow(), lab+"/no-deadline-timer")
+		rel()
+	}
+	verif.Quiesce()
+	verif.Assert(w.g.Done(), lab+"/send-hangs-beyond-its-deadline")
+	if !w.g.Done() {
+		return
+	}
+	verif.Assert(w.err == nil || w.err == mangos.ErrSendTimeout, lab+"/unexpected-send-error")
+	hl := hdrLen(proto)
+	for i, s := range sends {
+		n := 0
+		for _, r := range peer.Sent {
+			x := r.Bytes()
+			if len(x) == hl+2 && verif.BytesEq(x[hl:], s.b) && x[hl] == s.b[0] {
+				n++
+			}
+		}
+		if s.err == nil {
+			verif.Assert(n == 1, lab+"/accepted-message-not-delivered-exactly-once")
+		} else {
+			verif.Assert(n == 0, lab+"/message-delivered-although-send-reported-a-timeout")
+		}
+		_ = i
+	}
+	last := -1
+	for _, r := range peer.Sent {
+		x := r.Bytes()
+		if len(x) == hl+2 {
+			idx := int(x[hl] - 'a')
+			verif.Assert(idx > last, lab+"/reordered-or-duplicated")
+			last = idx
+		}
+	}
+	if w.err == nil {
+		verif.Reach("send-won")
+	} else {
+		verif.Reach("send-deadline-won")
+	}
 	sock.Close()
 }
